@@ -260,6 +260,53 @@ class Body:
                     out.append((p, self.expr(t['discr']), vals))
         return out
 
+    def path_dnf(self, where, limit=48):
+        """Reaching condition of a block / CFG edge as a disjunction over the acyclic paths from the entry: a list of
+        conjunctions [(block, discr expr, values)] - or None when there are more than `limit` paths or a loop is on the way
+        (callers then fall back to the dominating conjunction of branch_conditions)."""
+        key = ('dnf', where if not isinstance(where, list) else tuple(where))
+        cache = self.__dict__.setdefault('_dnf_cache', {})
+        if key in cache:
+            return cache[key]
+        P = self.preds()
+        res = []
+        if isinstance(where, tuple):
+            start, first = where[0], where[1]
+        else:
+            start, first = where, None
+
+        def edge_cond(p, succ):
+            t = self.blocks[p]['term']
+            if t['k'] != 'switch':
+                return None
+            vals = frozenset(v for v, tgt in t['vals'] if tgt == succ)
+            if t['otherwise'] == succ:
+                excl = frozenset(v for v, tgt in t['vals'] if tgt != succ)
+                if not excl:
+                    return None
+                return (p, self.expr(t['discr']), ('else', excl))
+            return (p, self.expr(t['discr']), vals) if vals else None
+        ok = True
+        stack = [(start, [edge_cond(start, first)] if first is not None and edge_cond(start, first) else [], frozenset([start]))]
+        while stack and ok:
+            x, conds, seen = stack.pop()
+            if x == 0:
+                res.append(list(reversed(conds)))
+                if len(res) > limit:
+                    ok = False
+                continue
+            preds = [q for q in P.get(x, []) if not self.blocks[q]['cleanup']]
+            if not preds:
+                continue
+            for q in preds:
+                if q in seen:
+                    ok = False        # a cycle on the way: not a finite path set
+                    break
+                c = edge_cond(q, x)
+                stack.append((q, conds + ([c] if c else []), seen | {q}))
+        cache[key] = res if ok and res else None
+        return cache[key]
+
     def _reach_avoiding(self, a, b, avoid):
         if a == avoid:
             return False
@@ -1041,7 +1088,16 @@ def inline_calls(facts, e, depth=2, skip=None, _stack=()):
     if k == 'phi':
         return ('phi', e[1], [rec(a) for a in e[2]]) + tuple(e[3:])
     if k == 'callptr':
-        return ('callptr', rec(e[1]), [rec(a) for a in e[2]], e[3])
+        fv = rec(e[1])
+        args = [rec(a) for a in e[2]]
+        c = fv
+        while c[0] in ('ref', 'deref') or (c[0] == 'cast' and 'FnPointer' in str(c[1])):
+            c = c[3] if c[0] == 'cast' else c[1]
+        if depth > 0 and (c[0] == 'fnitem' or (c[0] == 'aggr' and str(c[1]).startswith('closure:'))):
+            v = apply_closure(facts, c, args)
+            if v is not None:
+                return inline_calls(facts, v, depth - 1, skip, _stack)
+        return ('callptr', fv, args, e[3])
     if k == 'call':
         args = [rec(a) for a in e[2]]
         path = e[1]
